@@ -114,3 +114,373 @@ theorem selectOp_length {α} (s : Arr Bool) (a b c : Arr α) (h : selectOp s a b
   · simp [selectOp, h1] at h
 
 end RlModel
+
+namespace RlModel
+
+/-- Every column of the chunk has the chunk's cardinality. -/
+def ChunkWF (chunk : List Col) (n : Nat) : Prop := ∀ c ∈ chunk, c.len = n
+
+theorem ternaryOp_length {α β γ δ} (d : δ) (f : α → β → γ → δ) (a : Arr α) (b : Arr β) (c : Arr γ)
+    (h1 : a.length = b.length) (h2 : b.length = c.length) :
+    (ternaryOp d f a b c).length = a.length := by
+  induction a generalizing b c with
+  | nil => simp [ternaryOp]
+  | cons x xs ih =>
+    cases b with
+    | nil => simp at h1
+    | cons y ys =>
+      cases c with
+      | nil => simp at h2
+      | cons z zs => simp [ternaryOp, ih ys zs (by simpa using h1) (by simpa using h2)]
+
+theorem cast_len (t : Ty) (c r : Col) (h : Col.cast t c = .ok r) : r.len = c.len := by
+  cases c with
+  | null n => simp [Col.cast] at h; subst h; cases t <;> simp [nullCol, Col.len, nullArr]
+  | bool a => cases t <;> simp [Col.cast] at h <;> (subst h; simp [Col.len])
+  | int w a =>
+    cases t with
+    | null => simp [Col.cast] at h
+    | bool => simp [Col.cast] at h; subst h; simp [Col.len]
+    | str => simp [Col.cast] at h; subst h; simp [Col.len]
+    | int w' =>
+      simp only [Col.cast] at h
+      split at h
+      · cases h; rfl
+      · split at h
+        · cases h; rfl
+        · cases ht : tryUnaryOp 0 (fun x => if w'.fits x = true then KOut.ok x else KOut.err) a with
+          | ok c => simp [ht] at h; subst h; simp [Col.len, tryUnaryOp_length _ _ _ _ ht]
+          | err => simp [ht] at h
+          | panic => simp [ht] at h
+  | str a =>
+    cases t with
+    | null => simp [Col.cast] at h
+    | str => simp [Col.cast] at h; subst h; rfl
+    | bool =>
+      simp only [Col.cast] at h
+      split at h <;> first | cases h | skip
+      rename_i c ht
+      simp [Col.len, tryUnaryOp_length _ _ _ _ ht]
+    | int w =>
+      simp only [Col.cast] at h
+      split at h <;> first | cases h | skip
+      rename_i c ht
+      simp [Col.len, tryUnaryOp_length _ _ _ _ ht]
+
+theorem arith_len (op : ArithOp) (ca cb c : Col) (h : Col.arith op ca cb = .ok c) :
+    c.len = ca.len ∧ ca.len = cb.len := by
+  cases ca <;> cases cb <;> simp [Col.arith] at h
+  rename_i wa a wb b
+  cases hk : arithK op (wa.max wb) a b <;> simp [hk, KOut.map] at h
+  subst h
+  unfold arithK at hk
+  obtain ⟨h1, h2⟩ := binaryOp_length _ _ _ _ hk
+  simp only [Col.len]
+  cases hd : (op == ArithOp.div) <;> simp [hd, safenDividend] at h2 <;> exact ⟨h1, h2⟩
+
+theorem cmpK_len {α} (f : α → α → Bool) (a b : Arr α) (c : Arr Bool) (h : cmpK f a b = .ok c) :
+    c.length = a.length ∧ a.length = b.length := by
+  rw [cmpK_eq] at h
+  exact zipSlotM_length _ a b c h
+
+theorem cmp_len (op : CmpOp) (ca cb c : Col) (h : Col.cmp op ca cb = .ok c) :
+    c.len = ca.len ∧ ca.len = cb.len := by
+  cases ca <;> cases cb <;> simp [Col.cmp] at h
+  · rename_i a b
+    cases hk : cmpK (fun x y => op.onOrd (boolOrd x y)) a b <;> simp [hk, KOut.map] at h
+    subst h; exact cmpK_len _ a b _ hk
+  · rename_i wa a wb b
+    cases hk : cmpK op.onInt a b <;> simp [hk, KOut.map] at h
+    subst h; exact cmpK_len _ a b _ hk
+  · rename_i a b
+    cases hk : cmpK (fun x y => op.onOrd (strOrd x y)) a b <;> simp [hk, KOut.map] at h
+    subst h; exact cmpK_len _ a b _ hk
+
+theorem and_len (ca cb c : Col) (h : Col.and ca cb = .ok c) : c.len = ca.len ∧ ca.len = cb.len := by
+  cases ca <;> cases cb <;> simp [Col.and] at h
+  rename_i a b
+  cases hk : andK a b <;> simp [hk, KOut.map] at h
+  subst h
+  rw [andK_eq] at hk
+  exact zipSlotM_length _ a b _ hk
+
+theorem or_len (ca cb c : Col) (h : Col.or ca cb = .ok c) : c.len = ca.len ∧ ca.len = cb.len := by
+  cases ca <;> cases cb <;> simp [Col.or] at h
+  rename_i a b
+  cases hk : orK a b <;> simp [hk, KOut.map] at h
+  subst h
+  rw [orK_eq] at hk
+  exact zipSlotM_length _ a b _ hk
+
+theorem not_len (ca c : Col) (h : Col.not ca = .ok c) : c.len = ca.len := by
+  cases ca <;> simp [Col.not] at h
+  subst h; simp [Col.len, notK, clearNull]
+
+theorem neg_len (ca c : Col) (h : Col.neg ca = .ok c) : c.len = ca.len := by
+  cases ca with
+  | int w x =>
+    cases w <;> simp [Col.neg] at h
+    · cases hk : unaryOp (negW .w32) x <;> simp [hk] at h
+      subst h; exact unaryOp_length _ _ _ hk
+    · cases hk : unaryOp (negW .w64) x <;> simp [hk] at h
+      subst h; exact unaryOp_length _ _ _ hk
+  | null k => simp [Col.neg] at h
+  | bool x => simp [Col.neg] at h
+  | str x => simp [Col.neg] at h
+
+theorem isNull_len (c : Col) : (Col.isNull c).len = c.len := by
+  cases c <;> simp [Col.isNull, Col.len]
+
+theorem select_len (cc ct ce c : Col) (h : Col.select cc ct ce = .ok c) :
+    c.len = ct.len ∧ ct.len = ce.len ∧ cc.len = ct.len := by
+  cases cc <;> cases ct <;> cases ce <;> simp only [Col.select] at h <;> try (cases h)
+  rename_i s wa x wb y
+  split at h
+  · cases hk : selectOp s x y <;> simp only [hk] at h <;> cases h
+    exact selectOp_length s x y _ hk
+  · cases h
+
+theorem concat_len (ca cb c : Col) (h : Col.concat ca cb = .ok c) :
+    c.len = ca.len ∧ ca.len = cb.len := by
+  cases ca <;> cases cb <;> simp only [Col.concat] at h <;> try (cases h)
+  rename_i a b
+  cases hk : binaryOp (fun x y => KOut.ok (x ++ y)) a b <;> simp only [hk] at h <;> cases h
+  exact binaryOp_length _ a b _ hk
+
+theorem like_len (p : String) (ca c : Col) (h : Col.like p ca = .ok c) : c.len = ca.len := by
+  cases ca <;> simp [Col.like] at h
+  rename_i a
+  cases hk : likeK p a <;> simp [hk, KOut.map] at h
+  subst h
+  unfold likeK at hk
+  split at hk
+  · cases hk
+  · cases hk; simp [Col.len, clearNull]
+
+theorem replace_len (f t : String) (ca c : Col) (h : Col.replace f t ca = .ok c) : c.len = ca.len := by
+  cases ca <;> simp [Col.replace] at h
+  subst h; simp [Col.len]
+
+theorem repeat_len (ca cb c : Col) (h : Col.repeat_ ca cb = .ok c) :
+    c.len = ca.len ∧ ca.len = cb.len := by
+  cases ca <;> cases cb <;> simp only [Col.repeat_] at h <;> try (cases h)
+  rename_i a w b
+  cases w <;> simp only [Col.repeat_] at h <;> try (cases h)
+  cases hk : binaryOp (fun s n => KOut.ok (repeatF s n)) a b <;> simp only [hk] at h <;> cases h
+  exact binaryOp_length _ a b _ hk
+
+theorem substring_len (cs cb cc c : Col) (h : Col.substring cs cb cc = .ok c)
+    (h1 : cs.len = cb.len) (h2 : cb.len = cc.len) : c.len = cs.len := by
+  cases cs <;> cases cb <;> cases cc <;> simp only [Col.substring] at h <;> try (cases h)
+  rename_i a w1 b w2 c0
+  cases w1 <;> cases w2 <;> simp only [Col.substring] at h <;> cases h
+  exact ternaryOp_length _ _ a b c0 h1 h2
+
+theorem constCol_len (v : KVal) (n : Nat) : (constCol v n).len = n := by
+  cases v <;> simp [constCol, Col.len]
+
+
+/-- `evalK` over a well-formed chunk returns a column of the chunk's cardinality. -/
+theorem evalK_len (chunk : List Col) (n : Nat) (hwf : ChunkWF chunk n) (e : KExpr) :
+    ∀ c, (evalK chunk n e).1 = .ok c → c.len = n := by
+  induction e with
+  | col i =>
+    intro c h
+    simp only [evalK] at h
+    cases hc : chunk[i]? with
+    | none => simp [hc] at h
+    | some c0 => simp [hc] at h; subst h; exact hwf c0 (List.mem_of_getElem? hc)
+  | const v => intro c h; simp only [evalK] at h; cases h; exact constCol_len v n
+  | arith op a b iha ihb =>
+    intro c h
+    simp only [evalK] at h
+    rcases ha : evalK chunk n a with ⟨ra, ta⟩
+    rw [ha] at h
+    cases ra with
+    | ok ca =>
+      rcases hb : evalK chunk n b with ⟨rb, tb⟩
+      rw [hb] at h
+      cases rb with
+      | ok cb => simp only at h; rw [(arith_len op ca cb c h).1]; exact iha ca (by rw [ha])
+      | err => simp at h
+      | panic => simp at h
+    | err => simp at h
+    | panic => simp at h
+  | cmp op a b iha ihb =>
+    intro c h
+    simp only [evalK] at h
+    rcases ha : evalK chunk n a with ⟨ra, ta⟩
+    rw [ha] at h
+    cases ra with
+    | ok ca =>
+      rcases hb : evalK chunk n b with ⟨rb, tb⟩
+      rw [hb] at h
+      cases rb with
+      | ok cb => simp only at h; rw [(cmp_len op ca cb c h).1]; exact iha ca (by rw [ha])
+      | err => simp at h
+      | panic => simp at h
+    | err => simp at h
+    | panic => simp at h
+  | and a b iha ihb =>
+    intro c h
+    simp only [evalK] at h
+    rcases ha : evalK chunk n a with ⟨ra, ta⟩
+    rw [ha] at h
+    cases ra with
+    | ok ca =>
+      rcases hb : evalK chunk n b with ⟨rb, tb⟩
+      rw [hb] at h
+      cases rb with
+      | ok cb => simp only at h; rw [(and_len ca cb c h).1]; exact iha ca (by rw [ha])
+      | err => simp at h
+      | panic => simp at h
+    | err => simp at h
+    | panic => simp at h
+  | or a b iha ihb =>
+    intro c h
+    simp only [evalK] at h
+    rcases ha : evalK chunk n a with ⟨ra, ta⟩
+    rw [ha] at h
+    cases ra with
+    | ok ca =>
+      rcases hb : evalK chunk n b with ⟨rb, tb⟩
+      rw [hb] at h
+      cases rb with
+      | ok cb => simp only at h; rw [(or_len ca cb c h).1]; exact iha ca (by rw [ha])
+      | err => simp at h
+      | panic => simp at h
+    | err => simp at h
+    | panic => simp at h
+  | not a iha =>
+    intro c h
+    simp only [evalK] at h
+    rcases ha : evalK chunk n a with ⟨ra, ta⟩
+    rw [ha] at h
+    cases ra with
+    | ok ca => simp only at h; rw [not_len ca c h]; exact iha ca (by rw [ha])
+    | err => simp at h
+    | panic => simp at h
+  | neg a iha =>
+    intro c h
+    simp only [evalK] at h
+    rcases ha : evalK chunk n a with ⟨ra, ta⟩
+    rw [ha] at h
+    cases ra with
+    | ok ca => simp only at h; rw [neg_len ca c h]; exact iha ca (by rw [ha])
+    | err => simp at h
+    | panic => simp at h
+  | isnull a iha =>
+    intro c h
+    simp only [evalK] at h
+    rcases ha : evalK chunk n a with ⟨ra, ta⟩
+    rw [ha] at h
+    cases ra with
+    | ok ca => simp only at h; cases h; rw [isNull_len ca]; exact iha ca (by rw [ha])
+    | err => simp at h
+    | panic => simp at h
+  | ite cnd t e ihc iht ihe =>
+    intro c h
+    simp only [evalK] at h
+    rcases hc : evalK chunk n cnd with ⟨rc, tc⟩
+    rw [hc] at h
+    cases rc with
+    | ok cc =>
+      rcases ht : evalK chunk n t with ⟨rt, tt⟩
+      rw [ht] at h
+      cases rt with
+      | ok ct =>
+        rcases he : evalK chunk n e with ⟨re, te⟩
+        rw [he] at h
+        cases re with
+        | ok ce => simp only at h; rw [(select_len cc ct ce c h).1]; exact iht ct (by rw [ht])
+        | err => simp at h
+        | panic => simp at h
+      | err => simp at h
+      | panic => simp at h
+    | err => simp at h
+    | panic => simp at h
+  | cast t a iha =>
+    intro c h
+    simp only [evalK] at h
+    rcases ha : evalK chunk n a with ⟨ra, ta⟩
+    rw [ha] at h
+    cases ra with
+    | ok ca => simp only at h; rw [cast_len t ca c h]; exact iha ca (by rw [ha])
+    | err => simp at h
+    | panic => simp at h
+  | concat a b iha ihb =>
+    intro c h
+    simp only [evalK] at h
+    rcases ha : evalK chunk n a with ⟨ra, ta⟩
+    rw [ha] at h
+    cases ra with
+    | ok ca =>
+      rcases hb : evalK chunk n b with ⟨rb, tb⟩
+      rw [hb] at h
+      cases rb with
+      | ok cb => simp only at h; rw [(concat_len ca cb c h).1]; exact iha ca (by rw [ha])
+      | err => simp at h
+      | panic => simp at h
+    | err => simp at h
+    | panic => simp at h
+  | like a p iha =>
+    intro c h
+    simp only [evalK] at h
+    rcases ha : evalK chunk n a with ⟨ra, ta⟩
+    rw [ha] at h
+    cases ra with
+    | ok ca => simp only at h; rw [like_len p ca c h]; exact iha ca (by rw [ha])
+    | err => simp at h
+    | panic => simp at h
+  | substring s b c0 ihs ihb ihc =>
+    intro c h
+    simp only [evalK] at h
+    rcases hs : evalK chunk n s with ⟨rs, ts⟩
+    rw [hs] at h
+    cases rs with
+    | ok cs =>
+      rcases hb : evalK chunk n b with ⟨rb, tb⟩
+      rw [hb] at h
+      cases rb with
+      | ok cb =>
+        rcases hc0 : evalK chunk n c0 with ⟨rc, tc⟩
+        rw [hc0] at h
+        cases rc with
+        | ok cc =>
+          simp only at h
+          have l1 := ihs cs (by rw [hs])
+          have l2 := ihb cb (by rw [hb])
+          have l3 := ihc cc (by rw [hc0])
+          rw [substring_len cs cb cc c h (by rw [l1, l2]) (by rw [l2, l3])]; exact l1
+        | err => simp at h
+        | panic => simp at h
+      | err => simp at h
+      | panic => simp at h
+    | err => simp at h
+    | panic => simp at h
+  | replace a f t iha =>
+    intro c h
+    simp only [evalK] at h
+    rcases ha : evalK chunk n a with ⟨ra, ta⟩
+    rw [ha] at h
+    cases ra with
+    | ok ca => simp only at h; rw [replace_len f t ca c h]; exact iha ca (by rw [ha])
+    | err => simp at h
+    | panic => simp at h
+  | repeat_ s k ihs ihk =>
+    intro c h
+    simp only [evalK] at h
+    rcases hs : evalK chunk n s with ⟨rs, ts⟩
+    rw [hs] at h
+    cases rs with
+    | ok cs =>
+      rcases hk : evalK chunk n k with ⟨rk, tk⟩
+      rw [hk] at h
+      cases rk with
+      | ok ck => simp only at h; rw [(repeat_len cs ck c h).1]; exact ihs cs (by rw [hs])
+      | err => simp at h
+      | panic => simp at h
+    | err => simp at h
+    | panic => simp at h
+
+end RlModel
